@@ -12,6 +12,49 @@ fn sig(data: &[u8], hist: &str) -> String {
     format!("C03|len={}|fnv={:016x}|{}", data.len(), fnv64(data), hist)
 }
 
+#[allow(unused_variables)]
+fn skip_prefix(g: &mut Generator, prefix: u64) {
+    #[cfg(a4lg_ffuzzy_verif)]
+    if prefix > 0 {
+        g.verif_skip_zero_prefix(prefix);
+    }
+}
+
+/// histories that start after a multi-GiB zero prefix (hook): delivery forms, clones and intermediate
+/// finalizations at the largest block sizes, totals ending exactly at / just below the 192 GiB limit
+#[cfg(a4lg_ffuzzy_verif)]
+fn large_offset_case(l: &mut Local, rng: &mut Rng, words: &Words, i: u64) {
+    let mut payload = Vec::new();
+    let lv = *rng.pick(&[30usize, 30, 30, 29]);
+    for _ in 0..rng.urange(20, 70) {
+        payload.extend_from_slice(&words[lv][rng.usize_below(words[lv].len())]);
+        if rng.chance(1, 2) {
+            payload.extend_from_slice(&[0u8; 7]);
+        }
+    }
+    if rng.chance(1, 2) {
+        payload.push(rng.byte() | 1);
+    }
+    let max = genhist::MAX_INPUT;
+    let total = match i % 5 {
+        0 => max,
+        1 => max - rng.range(1, 3),
+        2 => (96u64 << 30) + rng.range(1, 1 << 20),
+        3 => (96u64 << 30) + rng.below(96u64 << 30),
+        _ => (1u64 << rng.range(33, 37)) + rng.below(1 << 30),
+    };
+    let prefix = total - payload.len() as u64;
+    let mut m = GModel::new();
+    m.zeros(prefix);
+    m.update(&payload);
+    let want = m.expect();
+    random_history(l, rng, &payload, &want, true, prefix);
+    l.count("large_offset_histories", 1);
+    if total == max {
+        l.count("histories_ending_exactly_at_192GiB", 1);
+    }
+}
+
 /// exhaustive two-chunk splits x ordered pairs of delivery forms
 fn two_chunk_exhaustive(l: &mut Local, data: &[u8], want: &Obs, nt: bool) {
     for cut in 0..=data.len() {
@@ -40,7 +83,7 @@ fn two_chunk_exhaustive(l: &mut Local, data: &[u8], want: &Obs, nt: bool) {
 }
 
 /// random multi-chunk history with clones and mid-stream finalizations
-fn random_history(l: &mut Local, rng: &mut Rng, data: &[u8], want: &Obs, nt: bool) {
+fn random_history(l: &mut Local, rng: &mut Rng, data: &[u8], want: &Obs, nt: bool, prefix: u64) {
     let nchunks = rng.urange(1, 40);
     let mut cuts: Vec<usize> = (0..nchunks - 1).map(|_| rng.usize_below(data.len() + 1)).collect();
     cuts.push(0);
@@ -50,6 +93,7 @@ fn random_history(l: &mut Local, rng: &mut Rng, data: &[u8], want: &Obs, nt: boo
     let mut forms_used = 0u32;
     let r = guard(|| {
         let mut g = Generator::new();
+        skip_prefix(&mut g, prefix);
         let mut clones: Vec<(Generator, usize)> = Vec::new();
         let mut mids: Vec<(usize, Obs)> = Vec::new();
         for w in cuts.windows(2) {
@@ -89,6 +133,9 @@ fn random_history(l: &mut Local, rng: &mut Rng, data: &[u8], want: &Obs, nt: boo
             }
             for (at, ob) in mids {
                 let mut m = GModel::new();
+                if prefix > 0 {
+                    m.zeros(prefix);
+                }
                 m.update(&data[..at]);
                 compare_obs(l, "intermediate-finalize", &sig(data, &format!("{}mid@{}", hist, at)), &format!("intermediate finalization after {} bytes (history {})", at, hist), &ob, &m.expect());
             }
@@ -146,7 +193,7 @@ fn check_payload(l: &mut Local, rng: &mut Rng, data: &[u8], exhaustive: bool, n_
         two_chunk_exhaustive(l, data, &want, nt);
     }
     for _ in 0..n_random {
-        random_history(l, rng, data, &want, nt);
+        random_history(l, rng, data, &want, nt, 0);
     }
     #[cfg(feature = "ffstd")]
     {
@@ -229,13 +276,17 @@ pub fn run(o: &Opts) -> i32 {
         })
         .grain(1),
     );
+    #[cfg(a4lg_ffuzzy_verif)]
+    streams.push(Stream::new("large-offset-histories", o.n(1500, 150_000), move |i, rng: &mut Rng, l: &mut Local| {
+        large_offset_case(l, rng, wref, i);
+    }));
     let mut rr = run_streams(o, streams);
     rr.local.inconclusive.extend(pre);
     finish(
         o,
         rr,
         Report {
-            rule: "payloads from W1/W2 (0..96 KiB). For payloads <= 700 bytes: EVERY two-chunk split offset x every ordered pair of the six delivery forms (update, update_by_iter, update_by_byte, += &[u8], += &[u8;N], += u8). Otherwise random 1..40-chunk histories with clones (continued separately) and intermediate finalizations (which must equal the hash of the prefix and must not disturb the rest), plus hash_buf and hash_stream under short-read patterns around its 32 KiB buffer. Every observation (input_size and four finalizers) is compared with oracle O1 over the payload (so a defect common to all delivery forms is not masked). evaluations = compared observations. Non-trivial = history mixes >= 2 delivery forms and the oracle performed >= 1 block-size elimination; distinct by (payload, history).".into(),
+            rule: "payloads from W1/W2 (0..96 KiB). For payloads <= 700 bytes: EVERY two-chunk split offset x every ordered pair of the six delivery forms (update, update_by_iter, update_by_byte, += &[u8], += &[u8;N], += u8). Otherwise random 1..40-chunk histories with clones (continued separately) and intermediate finalizations (which must equal the hash of the prefix and must not disturb the rest), plus hash_buf and hash_stream under short-read patterns around its 32 KiB buffer; with the hook, the same random histories after a zero prefix of 8..192 GiB (level-29/30 trigger words, totals exactly at / just below the 192 GiB limit) so that clones, delivery forms and intermediate finalizations are also observed at the largest block sizes. Every observation (input_size and four finalizers) is compared with oracle O1 over the payload (so a defect common to all delivery forms is not masked). evaluations = compared observations. Non-trivial = history mixes >= 2 delivery forms and the oracle performed >= 1 block-size elimination; distinct by (payload, history).".into(),
             assumptions: vec!["oracle O1 as in C01 (re-calibrated this run)".into()],
             exhaustive: false,
             min_nontrivial: 5000 * o.scale_pct / 100,
